@@ -92,6 +92,8 @@ class State:
 
 
 MUTATORS = {"take", "replace", "remove", "remove_entry", "clear", "drain", "pop", "retain", "truncate", "swap_remove", "entry", "get_or_insert", "get_or_insert_with", "insert_unique", "extend", "append", "swap", "sort", "sort_by", "dedup", "reverse", "rotate_left", "rotate_right", "split_off", "get_mut", "iter_mut", "values_mut", "as_mut", "last_mut", "first_mut", "set", "push_front", "pop_front", "pop_back"}
+TEXT_IDENTITIES = {"String::from", "str::to_string", "str::to_owned", "String::to_string", "ToString::to_string", "ToOwned::to_owned", "Into::into", "From::from", "String::clone", "Clone::clone", "str::into", "<str>::to_string", "<str>::to_owned", "std::string::String::from", "std::borrow::ToOwned::to_owned", "std::string::ToString::to_string", "String::as_str", "AsRef::as_ref", "Cow::from", "Cow::Borrowed", "Cow::Owned", "Cow::into_owned"}
+BOOLLIKE = {}  # private two-valued enum standing in for a bool: enum name -> {variant: True/False} (vlib/codegen.py::boollike)
 FIELD_ALIAS = {}  # actual (dotted) field path of the manager being interpreted -> canonical role name (vlib/mgrstate.py)
 ALIAS = {}  # actual function key -> role name (vlib/roles.py): canonical hole names do not depend on what a helper is called
 
@@ -319,7 +321,9 @@ class Interp:
         names = []
         for c in cases:
             pv = rx.pat_variant(c)
-            if pv:
+            if pv and len(pv[0].split("::")) >= 2 and pv[0].split("::")[-2] in BOOLLIKE and pv[0].split("::")[-1] in BOOLLIKE[pv[0].split("::")[-2]] and not c.get("elems"):
+                names.append("True" if BOOLLIKE[pv[0].split("::")[-2]][pv[0].split("::")[-1]] else "False")
+            elif pv:
                 names.append(pv[0])
             elif c["k"] == "lit":
                 names.append(repr(c["v"]))
@@ -376,6 +380,8 @@ class Interp:
                     return self.ev(it["e"], st)
             return [(st, H("name", n))]
         full = "::".join(segs)
+        if segs[-2] in BOOLLIKE and segs[-1] in BOOLLIKE[segs[-2]]:
+            return [(st, {"v": "bool", "b": BOOLLIKE[segs[-2]][segs[-1]], "src": full})]
         fl = self.flag_const(segs)
         if fl is not None:
             return [(st, fl)]
@@ -922,7 +928,7 @@ class Interp:
                     for arm, a in arms_out:
                         out += self.ev(arm["body"], a)
                     continue
-            if isinstance(sv, dict) and sv.get("v") in ("ok", "err", "some", "none") and any(self._nested_ctor(a_["pat"]) for a_ in e["arms"]):
+            if isinstance(sv, dict) and (sv.get("v") in ("ok", "err") or (sv.get("v") in ("some", "none") and any(self._nested_ctor(a_["pat"]) for a_ in e["arms"]))):
                 # a value whose constructors are known is matched statically, through nested patterns
                 chosen, undecided = None, False
                 for arm in e["arms"]:
@@ -2072,7 +2078,10 @@ class Interp:
                 return self.call_closure(fv, [x], s0)
             if fv.get("v") == "fn":
                 return self.call_fn(fv["key"], [x], s0, e)
-            return [(s0, H("call", src(e), args=[x]))]
+            if fv.get("v") == "hole" and fv.get("kind") == "path" and str(fv.get("src")).replace(" ", "") in TEXT_IDENTITIES:
+                # `String::from`, `str::to_string`, `ToOwned::to_owned`, … named as a function: the same text, owned
+                return [(s0, x)]
+            return [(s0, H("call", src(e), callee=str(fv.get("src")) if fv.get("v") == "hole" and fv.get("kind") == "path" else None, args=[x]))]
 
         if k == "ok":
             if m == "map" and argv:
